@@ -188,6 +188,12 @@ pub mod child {
             let stdout = std::io::stdout();
             let mut lock = stdout.lock();
             let _ = writeln!(lock, "PANIC thread={thread} at={loc} msg={one_line}");
+            // (triage aid, never part of a record: VERIF_BACKTRACE=<file> appends the call stack)
+            if let Ok(f) = std::env::var("VERIF_BACKTRACE") {
+                if let Ok(mut f) = std::fs::OpenOptions::new().create(true).append(true).open(f) {
+                    let _ = writeln!(f, "PANIC at={loc} msg={one_line}\n{}", std::backtrace::Backtrace::force_capture());
+                }
+            }
             let _ = lock.flush();
         }));
     }
